@@ -182,6 +182,14 @@ Module SW := Fmt.SmdWords.
 Theorem c20_smd_delimited_line_splits_into_its_fields : forall ps prev_ws,
   SW.delim prev_ws (map fst ps) = true -> SW.values_wordy ps = true -> SW.words (SW.render ps) = SW.fields ps.
 Proof. exact SW.delimited_line_splits. Qed.
+(** the bone line  index "name" parent  is read back by the reader's regular expression (modelled as greedy matching
+    over disjoint classes; the pattern bytes are compared with the source on every run): any name without a double quote *)
+Theorem c20_smd_bone_line_reads_back : forall a b idx nm par,
+  SW.nodes_line_shape [ST.ConvInt; ST.Lit a; ST.ConvStr; ST.Lit b; ST.ConvInt] = true ->
+  SW.all_digits idx = true -> forallb (fun c => negb (c =? 34)%N) nm = true -> SW.int_text par = true ->
+  SW.parse_nodes (SW.render [(ST.ConvInt, idx); (ST.Lit a, []); (ST.ConvStr, nm); (ST.Lit b, []); (ST.ConvInt, par)])
+  = Some (idx, nm, par).
+Proof. exact SW.nodes_line_reads_back. Qed.
 Theorem c20_smd_glued_fields_refuted :
   SW.delim true ST.smd_vertex_line_pinned = false
   /\ SW.words (SW.render [(ST.ConvFloat 6, [48; 46; 53]%N); (ST.ConvInt, [50%N])]) = [[48; 46; 53; 50]%N].
